@@ -9,7 +9,7 @@ PROPS = {
     "C01": dict(
         title="FFT64 negacyclic product is exact within the documented precision budget",
         module="SpqProofs.Properties.C01",
-        extra_modules=["SpqProofs.Properties.Closed", "SpqProofs.Properties.C01Err"],
+        extra_modules=["SpqProofs.Properties.Closed", "SpqProofs.Properties.C01Err", "SpqProofs.Properties.ErrWitness"],
         streams=dict(quick=[("md_model", "plain"), ("md_prod", "plain"), ("md_prog", "plain"), ("md_vmp", "plain"), ("ff_tables", "plain")],
                      thorough=[("md_model", "plain"), ("md_prod", "plain"), ("md_prog", "plain"), ("md_vmp", "plain"), ("ff_tables", "plain")]),
         proved="exact-arithmetic part (product_exact_arith, rows_zero) on the module-level model instantiated with a commutative ring: "
@@ -18,7 +18,7 @@ PROPS = {
                "small_product_exact (fft64_znx_small_single_product = nmul as integer arrays, every nn = 2m >= 2, both mul flavours) and "
                "svp_exact / rows_zero (svp_prepare + svp_apply_dft + vec_znx_idft: limb i < min(rsz, asz) = pol * vec_i, all other output limbs exactly zero, "
                "all limb counts incl. 0, all strides) under the explicit hypotheses H1-H4 on the abstract conversion/FFT pieces (ExactDft) and the dispatch "
-               "invariants (ExactArith: FMA pointwise kernels only when 4 | m); hypotheses shown satisfiable (Gaussian integers, nn = 2)",
+               "invariants (ExactArith: FMA pointwise kernels only when 4 | m); hypotheses shown satisfiable (Gaussian integers, nn = 2) NON-VACUITY (Properties/ErrWitness.lean): at N = 8 (m = 4, K = R, zeta = exp(i pi/8)) with the library's ACTUAL stored twiddle patterns and the configuration it installs on this host, every hypothesis of the binary64 rounding theorems (CfgOk, 3.5u accuracy of both tables proved from rational enclosures of cos/sin(pi/8), flags by evaluation, budget) is discharged on concrete integer inputs and the conclusions are evaluated (witness_reim_fft_err_k2, witness_small_product_exact_k2, witness_vmp_exact_k2, witness_roundtrip_exact_k2).",
         not_proved="END-TO-END BINARY64 (Properties/C01Err.lean, about the bit-exactly validated model function smallProduct (Cfg.parts c)): every output "
                    "coefficient is an integer within E' + 1/2 of the exact negacyclic product with E' = 12*log2(N)*2^-53*(|a|_1 |b|_2 + |a|_2 |b|_1) for N <= 131072, "
                    "and the result IS the exact product whenever E' < 1/2 (small_product_err_partial, small_product_exact_f64_partial, _prop_partial with the "
@@ -39,7 +39,7 @@ PROPS = {
     "C02": dict(
         title="Vector-matrix product (VMP) equals the naive polynomial product for all shapes",
         module="SpqProofs.Properties.C02",
-        extra_modules=["SpqProofs.Properties.Closed", "SpqProofs.Properties.C02Err"],
+        extra_modules=["SpqProofs.Properties.Closed", "SpqProofs.Properties.C02Err", "SpqProofs.Properties.ErrWitness"],
         streams=dict(quick=[("md_model", "plain"), ("md_vmp", "plain"), ("md_prog", "plain"), ("ff_tables", "plain")],
                      thorough=[("md_model", "plain"), ("md_vmp", "plain"), ("md_prog", "plain"), ("ff_tables", "plain")]),
         proved="vmp_layout (layout_inverse): for ANY fft/fromZnx, in exact arithmetic, vmp_apply_dft_to_dft(vmp_prepare(M)) column j < min(ncols, rsz), "
@@ -47,7 +47,7 @@ PROPS = {
                "layouts (nn >= 8: reim4 blocks, column pairs, lone last column, last computed column half of a pair; nn < 8: column-major), both vmpAvx flavours, "
                "mul/addmul ref and fma, every nrows, ncols, asz, rsz >= 0; vmp_exact: under H1-H4 the inverse DFT of vmp_apply_dft is column j = "
                "sum_i a_i * M[i][j] in Z[X]/(X^nn+1), other limbs zero; vmp_apply_dft_eq: vmp_apply_dft = vmp_apply_dft_to_dft o vec_znx_dft as arrays for "
-               "any carrier (binary64 included) and any prepared matrix (apply reads only min(nrows, asz) rows)",
+               "any carrier (binary64 included) and any prepared matrix (apply reads only min(nrows, asz) rows) NON-VACUITY (Properties/ErrWitness.lean): at N = 8 (m = 4, K = R, zeta = exp(i pi/8)) with the library's ACTUAL stored twiddle patterns and the configuration it installs on this host, every hypothesis of the binary64 rounding theorems (CfgOk, 3.5u accuracy of both tables proved from rational enclosures of cos/sin(pi/8), flags by evaluation, budget) is discharged on concrete integer inputs and the conclusions are evaluated (witness_reim_fft_err_k2, witness_small_product_exact_k2, witness_vmp_exact_k2, witness_roundtrip_exact_k2).",
         not_proved="BINARY64 (Properties/C02Err.lean, about the bit-exactly validated model functions): every coefficient of column j of idft(vmp_apply_dft(prepare M)) is an integer "
                    "within E_sum + 1/2 of the exact sum_i a_i*M[i][j], E_sum = (12 log2(N) + 2n + 3) 2^-53 sum_i (|a_i|_1 |M_ij|_2 + |a_i|_2 |M_ij|_1), n = min(nrows, a_size): the C01Err "
                    "budget per row (constant 12, not the property's 8: hence _partial) plus an explicit accumulation term; exact integer result when E_sum < 1/2 (vmp_exact_f64_partial); "
@@ -104,10 +104,10 @@ PROPS = {
     "C06": dict(
         title="reim/cplx FFT and iFFT equal the mathematical transform, in documented order",
         module="SpqProofs.Properties.C06",
-        extra_modules=["SpqProofs.Properties.Numerics", "SpqProofs.Properties.C06Err"],
+        extra_modules=["SpqProofs.Properties.Numerics", "SpqProofs.Properties.C06Err", "SpqProofs.Properties.ErrWitness"],
         streams=dict(quick=[("ff_fft", "plain"), ("ff_cfft", "plain"), ("ff_crafted", "plain"), ("ff_ccrafted", "plain"), ("ff_tables", "plain"), ("cv_naive", "plain")],
                      thorough=[("ff_fft", "plain"), ("ff_cfft", "plain"), ("ff_crafted", "plain"), ("ff_ccrafted", "plain"), ("ff_tables", "plain"), ("cv_naive", "plain")]),
-        proved="exact arithmetic, every m = 2^k (all k), reim and cplx layouts, reference and FMA/assembly schedules alike (the same network code as the bit-exact model, instantiated with a commutative ring with I^2=-1, zeta^m=I and the exact table = transcription of the fill_* functions): forward output j = evaluation of the input polynomial at zeta^(1+4*bitrev_k(j)); the inverse applied to exact evaluations returns m times the coefficients; ifft o fft = m.id for any pairing of implementations",
+        proved="exact arithmetic, every m = 2^k (all k), reim and cplx layouts, reference and FMA/assembly schedules alike (the same network code as the bit-exact model, instantiated with a commutative ring with I^2=-1, zeta^m=I and the exact table = transcription of the fill_* functions): forward output j = evaluation of the input polynomial at zeta^(1+4*bitrev_k(j)); the inverse applied to exact evaluations returns m times the coefficients; ifft o fft = m.id for any pairing of implementations NON-VACUITY (Properties/ErrWitness.lean): at N = 8 (m = 4, K = R, zeta = exp(i pi/8)) with the library's ACTUAL stored twiddle patterns and the configuration it installs on this host, every hypothesis of the binary64 rounding theorems (CfgOk, 3.5u accuracy of both tables proved from rational enclosures of cos/sin(pi/8), flags by evaluation, budget) is discharged on concrete integer inputs and the conclusions are evaluated (witness_reim_fft_err_k2, witness_small_product_exact_k2, witness_vmp_exact_k2, witness_roundtrip_exact_k2).",
         not_proved="rounding bound: PROVED (C06Err) for all four binary64 drivers - reim and cplx layout, forward and inverse, reference and FMA/assembly schedules, every m = 2^k: sum |out_j - exact_j|^2 <= ((1+8u)^k - 1)^2 sum |exact_j|^2, and <= (8 log2(2m) u)^2 for m <= 65536, under two explicit hypotheses: stored twiddles within 3.5*2^-53 of the exact roots (libm cos/sin accuracy is measured on every run, <= 3.11*2^-53 on all 571288 entries, not proved) and no overflow / inexact underflow in any intermediate operation (flags of the flagged run; the statement is false in the underflow range, stream class 'tiny'); the hand-written assembly is tied by bit-exact streams only; read-only tables: covered by C18/C15",
         level_text="Lean 4 theorems for the exact-arithmetic FFT/iFFT network of every size and both layouts, and the binary64 rounding bound of the property for the reim and cplx forward and inverse transforms; bit-exact differential streams against reference C, AVX2/FMA C and the assembly leaves for every m = 1..65536 with a __float128 evaluation oracle and the property's 2-norm bound; real drivers also run on crafted small-dyadic tables (signed-zero sensitivity); all table entries checked against quad-precision cos/sin",
         design_ref="DESIGN.md §5 C06",
@@ -237,10 +237,10 @@ PROPS = {
     "C16": dict(
         title="Pipelines of API calls compute the corresponding expression in Z[X]/(X^N+1)",
         module="SpqProofs.Properties.C16",
-        extra_modules=["SpqProofs.Properties.Closed", "SpqProofs.Properties.C16Err", "SpqProofs.Properties.Bridge"],
+        extra_modules=["SpqProofs.Properties.Closed", "SpqProofs.Properties.C16Err", "SpqProofs.Properties.Bridge", "SpqProofs.Properties.ErrWitness"],
         streams=dict(quick=[("md_prog", "plain"), ("vz_box", "plain"), ("ff_tables", "plain")],
                      thorough=[("md_prog", "plain"), ("vz_box", "plain"), ("ff_tables", "plain")]),
-        proved="coefficient-space fragment, complete: for every layout (N = 2^t, strides >= N, pairwise disjoint variables inside one int64 heap), every straight-line program of add/sub/negate/copy/rotate/automorphism/normalize calls (any length, destination equal to a source or not, any limb counts incl. 0) and every input, if the exact interpreter stays in budget (every stored coefficient fits int64; |normalize input| <= 2^62, k in [1,62]; odd automorphism index) then the heap after running the model of vec_znx.c holds, limb by limb, the exact expression in Z[X]/(X^N+1) (pointwise +-, X^p*a, a(X^p) = sum a_i X^(ip), balanced base-2^k digits), all other cells (padding, other variables) are unchanged and no access was out of bounds (coeff_prog_refines, coeff_prog_output; per-call *_sim derived from the C08/C09/C05 specs). Mixed programs (dft, svp_prepare/apply, vmp_prepare/apply, idft, small product on a second store of opaque objects): prog_refines_partial proves the refinement for every module and every program relative to the record DftOpsSound of per-function exactness facts (dft_exact, svp_exact, vmp_exact, dft_idft_exact, small_product_exact = the C01/C02 theorems) - heap reads with strides, stores, frames, interplay with coefficient-space calls and validity of opaque objects as inputs of later calls are proved; DftOpsSound is shown inhabited (identity-transform module) BINARY64 (Properties/C16Err.lean): the program interpreter run with the binary64 module instance Cfg.parts produces exactly the integer limbs of the exact interpreter for every well-typed program (all ten ops incl. vmp_apply_dft_to_dft) whose DFT-space steps satisfy their per-operation budget (round trip dft->idft: 17 log2(N) u |a|_2 < 1/2; svp / small product: C01Err budget; vmp: C02Err budget) and whose vmp_apply_dft_to_dft reads a raw dft output (SingleProductDepth, decidable): prog_refines_f64_partial, prog_output_f64_partial, dftOpsSound_f64 (DftOpsSound instantiated for the library module), f64_agrees_with_exact_network_partial. The stream md_prog now also sends every program to the Lean program model (driver family pg) and compares the final heap and every DFT variable bit for bit.",
+        proved="coefficient-space fragment, complete: for every layout (N = 2^t, strides >= N, pairwise disjoint variables inside one int64 heap), every straight-line program of add/sub/negate/copy/rotate/automorphism/normalize calls (any length, destination equal to a source or not, any limb counts incl. 0) and every input, if the exact interpreter stays in budget (every stored coefficient fits int64; |normalize input| <= 2^62, k in [1,62]; odd automorphism index) then the heap after running the model of vec_znx.c holds, limb by limb, the exact expression in Z[X]/(X^N+1) (pointwise +-, X^p*a, a(X^p) = sum a_i X^(ip), balanced base-2^k digits), all other cells (padding, other variables) are unchanged and no access was out of bounds (coeff_prog_refines, coeff_prog_output; per-call *_sim derived from the C08/C09/C05 specs). Mixed programs (dft, svp_prepare/apply, vmp_prepare/apply, idft, small product on a second store of opaque objects): prog_refines_partial proves the refinement for every module and every program relative to the record DftOpsSound of per-function exactness facts (dft_exact, svp_exact, vmp_exact, dft_idft_exact, small_product_exact = the C01/C02 theorems) - heap reads with strides, stores, frames, interplay with coefficient-space calls and validity of opaque objects as inputs of later calls are proved; DftOpsSound is shown inhabited (identity-transform module) BINARY64 (Properties/C16Err.lean): the program interpreter run with the binary64 module instance Cfg.parts produces exactly the integer limbs of the exact interpreter for every well-typed program (all ten ops incl. vmp_apply_dft_to_dft) whose DFT-space steps satisfy their per-operation budget (round trip dft->idft: 17 log2(N) u |a|_2 < 1/2; svp / small product: C01Err budget; vmp: C02Err budget) and whose vmp_apply_dft_to_dft reads a raw dft output (SingleProductDepth, decidable): prog_refines_f64_partial, prog_output_f64_partial, dftOpsSound_f64 (DftOpsSound instantiated for the library module), f64_agrees_with_exact_network_partial. The stream md_prog now also sends every program to the Lean program model (driver family pg) and compares the final heap and every DFT variable bit for bit. NON-VACUITY (Properties/ErrWitness.lean): at N = 8 (m = 4, K = R, zeta = exp(i pi/8)) with the library's ACTUAL stored twiddle patterns and the configuration it installs on this host, every hypothesis of the binary64 rounding theorems (CfgOk, 3.5u accuracy of both tables proved from rational enclosures of cos/sin(pi/8), flags by evaluation, budget) is discharged on concrete integer inputs and the conclusions are evaluated (witness_reim_fft_err_k2, witness_small_product_exact_k2, witness_vmp_exact_k2, witness_roundtrip_exact_k2).",
         not_proved="DftOpsSound is instantiated for the real FFT network in exact arithmetic (Closed: dftOpsSound_network, prog_refines_closed, incl. products of products) and for the library binary64 module (C16Err: dftOpsSound_f64). What remains for binary64: the per-operation budgets carry the proved constants (12 / 17 instead of the property 8 / 16), twiddle accuracy and the underflow side condition are hypotheses, and vmp_apply_dft_to_dft applied to the OUTPUT of svp/vmp (product of products) is outside SingleProductDepth (needs error propagation through a second product). NTT120 big-coefficient programs (int128 limbs) are not in the program model (module-level theorems in C03Mod; md_prog stream). Properties/Bridge.lean (an obligation of this check) ties the rotation/automorphism formulas and the NTT-side product formula Q120Ntt.nmul to Mathlib AdjoinRoot (X^N+1); the FFT-side product formula Spq.nmul used by C01/C02/Closed is tied to Prog.polyMul only (same textbook sum, not yet restated over AdjoinRoot)",
         level_text="Lean 4 refinement theorem (simulation by induction on the program) for the whole coefficient-space fragment over the heap model of vec_znx.c; DFT-space extension proved relative to an explicit record of per-function exactness hypotheses; random well-typed programs over the real library (both dispatch masks, aliasing, shapes) checked against an independent 128-bit exact interpreter",
         design_ref="DESIGN.md §5 C16",
